@@ -27,6 +27,22 @@ EVID_DIR = os.path.join(VERIF, "evidence")
 REPLAY_DIR = os.path.join(VERIF, "replays")
 FINDINGS = os.path.join(VERIF, "known_findings.json")
 MAX_REPORTED = 10  # VIOLATION lines / replay files per run (total is still counted)
+# [(known id, what, predicate)] for the property being checked; set by main before run() so that forked
+# workers inherit it.  Cases matching a listed known finding are counted, not stored.
+_KNOWN = []
+
+
+def set_known(pid, predicates):
+    global _KNOWN
+    _KNOWN = []
+    try:
+        with open(FINDINGS) as f:
+            d = json.load(f)
+    except FileNotFoundError:
+        return
+    for k in d.get("known", []):
+        if k.get("property") == pid and k.get("predicate") in (predicates or {}):
+            _KNOWN.append((k["id"], k["what"], predicates[k["predicate"]]))
 NCPU = min(16, os.cpu_count() or 1)
 
 
@@ -90,6 +106,7 @@ class Part:
         self.last = None
         self.viol = []  # (case, msg)
         self.n_viol = 0
+        self.known = {}  # known id -> number of enumerated cases matching its signature
         self.extra = {}
 
     # -- counting ---------------------------------------------------------
@@ -124,9 +141,20 @@ class Part:
         self.extra[key] = max(self.extra.get(key, v), v)
 
     def violation(self, case, msg):
+        jc = jsonable(case)
+        if _KNOWN:
+            uc = unjson(jc)
+            for kid, _what, pred in _KNOWN:
+                try:
+                    hit = bool(pred(uc, str(msg)))
+                except Exception:
+                    hit = False
+                if hit:
+                    self.known[kid] = self.known.get(kid, 0) + 1
+                    return
         self.n_viol += 1
         if len(self.viol) < 200:
-            self.viol.append((jsonable(case), str(msg)))
+            self.viol.append((jc, str(msg)))
 
     def merge(self, other: "Part"):
         self.evaluations += other.evaluations
@@ -142,6 +170,8 @@ class Part:
             self.last = other.last
         self.viol.extend(other.viol)
         self.n_viol += other.n_viol
+        for k, v in other.known.items():
+            self.known[k] = self.known.get(k, 0) + v
         for k, v in other.extra.items():
             if k.startswith("max_"):
                 self.extra[k] = max(self.extra.get(k, v), v)
@@ -167,37 +197,13 @@ class Ctx(Part):
         self.caps.append(what)
 
     # -- finishing -----------------------------------------------------------
-    def _load_findings(self):
-        try:
-            with open(FINDINGS) as f:
-                d = json.load(f)
-        except FileNotFoundError:
-            return []
-        return [k for k in d.get("known", []) if k.get("property") == self.pid]
-
     def finish(self, min_outcomes=2):
-        known = self._load_findings()
-        known_hits = {}
-        real = []
-        for case, msg in self.viol:
-            hit = None
-            for k in known:
-                pred = self.known_predicates.get(k.get("predicate"))
-                try:
-                    if pred is not None and pred(unjson(case), msg):
-                        hit = k
-                        break
-                except Exception:
-                    pass
-            if hit is not None:
-                known_hits.setdefault(hit["id"], [hit, 0])[1] += 1
-            else:
-                real.append((case, msg))
-        # violations beyond the stored cap are unknown → counted as real
-        overflow = self.n_viol - len(self.viol)
-        n_real = len(real) + max(0, overflow)
-        for kid, (k, n) in sorted(known_hits.items()):
-            print(f"KNOWN-FINDING: property={self.pid} {kid}: {k['what']} ({n} enumerated cases match its signature)")
+        real = list(self.viol)
+        n_real = self.n_viol
+        what = {kid: w for kid, w, _ in _KNOWN}
+        known_hits = {kid: n for kid, n in self.known.items() if n}
+        for kid, n in sorted(known_hits.items()):
+            print(f"KNOWN-FINDING: property={self.pid} {kid}: {what.get(kid, '')} ({n} enumerated cases match its signature)")
         os.makedirs(os.path.join(REPLAY_DIR, self.pid), exist_ok=True)
         for case, msg in real[:MAX_REPORTED]:
             path = os.path.join(REPLAY_DIR, self.pid, digest(case) + ".json")
@@ -227,7 +233,7 @@ class Ctx(Part):
             "bounds_completed": jsonable(self.bounds),
             "distinct_observed_outcomes": len(self.outcomes),
             "caps_hit": self.caps,
-            "known_findings_matched": {kid: n for kid, (k, n) in known_hits.items()},
+            "known_findings_matched": known_hits,
             "explanation": "explorer drives the real sleap-nn code; every enumerated case is an execution of the implementation",
         }
         cov.update({k: v for k, v in self.extra.items()})
@@ -251,7 +257,7 @@ class Ctx(Part):
             f"[{self.pid}] tier={self.tier} seed={self.seed} evaluations={self.evaluations} "
             f"states={cov['states']} transitions={cov['transitions']} nontrivial={len(self.nontrivial)} "
             f"outcomes={len(self.outcomes)} exhaustive={self.exhaustive} violations={n_real} "
-            f"known={sum(n for _, n in known_hits.values())} wall={ev['wall_s']}s"
+            f"known={sum(known_hits.values())} wall={ev['wall_s']}s"
         )
         if vacuous:
             print(f"HARNESS-ERROR property={self.pid} {vacuous}")
